@@ -660,6 +660,19 @@ def corpus(prop):
     return out
 
 
+def static_tie(prop, repo):
+    """C20: every read of the switch in the current source must have the shape the models give it."""
+    if prop != "C20":
+        return None
+    from .. import switchscan
+    st = switchscan.scan(repo)
+    st["what"] = ("the models read the switch only as `if assertions then <pure guard>` at the top of the six "
+                  "setters; the source now depends on ASSERTIONS in another way (logic under the flag)")
+    st["theorems"] = ["C20_forest_step", "C20_forest_history", "C20_forest_guards_pure_strong", "C20_binary_guards_pure",
+                      "C20_dag_hook_failure_irrelevant"]
+    return st
+
+
 def matches_finding(prop, entry, case, obs, flags):
     if prop == "C03" and entry.get("id") == "K3-C03":
         # narrow: some name starts or ends with a character of a multi-character separator in use
